@@ -17,7 +17,7 @@ EXPLANATION = ('The kill point is a symbolic integer: every mutating file-system
                'write in flight reaching the file. Then the first thing the follow-up `meson setup [--reconfigure]` does is run for real on the resulting files: '
                'Environment.__init__ (coredata.load through pickle_load; regeneration from cmd_line.txt if coredata.dat is unreadable) and read_cmd_line_file as '
                'MesonApp._generate does. It must not raise, and the option the interrupted command was setting must have its old or its new value.')
-ASSUMPTIONS = ['file system = a dictionary path -> content; a kill leaves exactly the effects of the completed steps plus a prefix of the write in flight (no page-cache loss: the '
+ASSUMPTIONS = ['file system = a dictionary path -> inode; writers are BUFFERED as CPython\'s (write() fills a user-space buffer that reaches the file at flush/close; a killed process never flushes; the inode follows a rename); a kill leaves exactly the effects of the completed steps plus a prefix of the write in flight (no page-cache loss: the '
                'statement is about a killed process, not a power failure)', 'pickle is an opaque encoder: a complete blob unpickles to a deep copy, an empty file raises EOFError, a '
                'truncated one pickle.UnpicklingError (what CPython does)', 'one option (warning_level) is changed from 1 to 2; it was given on the original command line',
                'backend generation is two steps (write build.ninja~, rename)', 'the DirectoryLock is not modelled (one process)']
@@ -38,10 +38,18 @@ class Killed(BaseException):
     pass
 
 
+class Inode:
+    def __init__(self, c): self.c = c
+
+
+class Files(dict):
+    def __setitem__(self, k, v): dict.__setitem__(self, k, v if isinstance(v, Inode) else Inode(v))
+
+
 class FS:
-    """path -> str (text) | ('PICKLE', obj, complete)"""
+    """path -> Inode; content = str (text) | ('PICKLE', obj, complete[, 'truncated'])"""
     def __init__(self):
-        self.files = {}; self.step = 0; self.kill_at = None; self.log = []
+        self.files = Files(); self.step = 0; self.kill_at = None; self.log = []
 
     def tick(self, what):
         """one mutating step; -> True if the process dies DURING this step"""
@@ -55,37 +63,50 @@ class FS:
 
 
 class WF:
+    """a buffered writer as CPython's: write() fills a user-space buffer, the bytes reach the file at flush()/close(); a killed process never flushes"""
     def __init__(self, fs, name, binary):
         self.fs, self.name, self.binary = fs, name, binary
         fs.before('open-truncate ' + os.path.basename(name))
-        fs.files[name] = ('PICKLE', None, False) if binary else ''
-        self.closed = False
+        empty = ('PICKLE', None, False) if binary else ''
+        if name in fs.files: fs.files[name].c = empty
+        else: fs.files[name] = Inode(empty)
+        self.inode = fs.files[name]         # follows the file through a rename
+        self.buf = []; self.obj = None; self.closed = False
     def write(self, data):
-        if self.fs.tick('write ' + os.path.basename(self.name)):
-            cut = concretize_int(sym_int('cut', 0, len(data)), 200)
-            self.fs.files[self.name] = self.fs.files[self.name] + data[:cut]
-            raise Killed('write')
-        self.fs.files[self.name] = self.fs.files[self.name] + data
-        return len(data)
-    def dump(self, obj):
-        if self.fs.tick('pickle.dump ' + os.path.basename(self.name)):
-            cut = choose(3, 'pickle_cut')        # nothing | truncated | all of it
-            if cut == 1: self.fs.files[self.name] = ('PICKLE', obj, False, 'truncated')
-            elif cut == 2: self.fs.files[self.name] = ('PICKLE', copy.deepcopy(obj), True)
-            raise Killed('dump')
-        self.fs.files[self.name] = ('PICKLE', copy.deepcopy(obj), True)
-    def flush(self): self.fs.before('flush')
+        self.buf.append(data); return len(data)
+    def dump(self, obj): self.obj = obj
+    def _flush(self):
+        if self.obj is not None:
+            obj, self.obj = self.obj, None
+            if self.fs.tick('write(pickle) ' + os.path.basename(self.name)):
+                cut = choose(3, 'pickle_cut')        # nothing | truncated | all of it
+                if cut == 1: self.inode.c = ('PICKLE', obj, False, 'truncated')
+                elif cut == 2: self.inode.c = ('PICKLE', copy.deepcopy(obj), True)
+                raise Killed('write')
+            self.inode.c = ('PICKLE', copy.deepcopy(obj), True)
+        if self.buf:
+            data = ''
+            for p in self.buf: data = data + p
+            self.buf = []
+            if self.fs.tick('write(%d bytes) ' % len(data) + os.path.basename(self.name)):
+                cut = concretize_int(sym_int('cut', 0, len(data)), 300)
+                self.inode.c = self.inode.c + data[:cut]
+                raise Killed('write')
+            self.inode.c = self.inode.c + data
+    def flush(self): self._flush()
     def fileno(self): return 0
-    def close(self): self.closed = True
+    def close(self):
+        if not self.closed: self.closed = True; self._flush()
     def __enter__(self): return self
     def __exit__(self, et, ev, tb):
+        if et is None or not issubclass(et, Killed): self.close()
         return False
 
 
 class RF:
     def __init__(self, fs, name, binary):
         if name not in fs.files: raise FileNotFoundError(2, 'No such file or directory', name)
-        self.content = fs.files[name]; self.binary = binary
+        self.content = fs.files[name].c; self.binary = binary
     def __iter__(self): return iter(self.content.splitlines(True))
     def read(self): return self.content
     def __enter__(self): return self
@@ -193,15 +214,15 @@ class Patched:
 
         def copyfile(a, b, **k):
             fs.before('copy: create ' + os.path.basename(b))
-            src = fs.files[str(a)]
-            fs.files[str(b)] = ('PICKLE', None, False) if isinstance(src, tuple) else ''
+            src = fs.files[str(a)].c
+            fs.files[str(b)] = Inode(('PICKLE', None, False) if isinstance(src, tuple) else '')
             if fs.tick('copy: data ' + os.path.basename(b)):
                 if isinstance(src, tuple):
-                    if choose(2, 'copy_cut') == 1: fs.files[str(b)] = ('PICKLE', src[1], False, 'truncated')
+                    if choose(2, 'copy_cut') == 1: fs.files[str(b)].c = ('PICKLE', src[1], False, 'truncated')
                 else:
-                    fs.files[str(b)] = src[:concretize_int(sym_int('copy_cut', 0, len(src)), 200)]
+                    fs.files[str(b)].c = src[:concretize_int(sym_int('copy_cut', 0, len(src)), 300)]
                 raise Killed('copyfile')
-            fs.files[str(b)] = src
+            fs.files[str(b)].c = src
         setg(shutil, 'copyfile', copyfile)
         return self
     def __exit__(self, *a):
@@ -301,7 +322,7 @@ def ob_recover():
             cd = priv('coredata.dat')
             if cdstate == 1: del fs.files[cd]
             elif cdstate == 2: fs.files[cd] = ('PICKLE', None, False)
-            elif cdstate == 3: fs.files[cd] = ('PICKLE', fs.files[cd][1], False, 'truncated')
+            elif cdstate == 3: fs.files[cd] = ('PICKLE', fs.files[cd].c[1], False, 'truncated')
             has_cmdline = choose(2, 'cmd_line.txt') == 0
             if not has_cmdline: del fs.files[priv('cmd_line.txt')]
             leftovers = choose(2, 'leftover temp files') == 1
